@@ -276,10 +276,11 @@ func c16Case(w *fw.W, idx int, r *fw.Rand) {
 		cfg := c16Cfg(bits)
 		vm := cfg.NewVM()
 		var hist []string
+		lastSrc := ""
 		n := r.Range(2, 5)
 		for k := 0; k < n; k++ {
 			var src string
-			plain := r.Pick([]string{"b2", "p", "f", "5a8", "3c8", "a10 + b", "f + p2", "c", "2c8m10", "10a10m8k6", "B", "P3", "func g(){ b }; g()", "&v = f; v", "`{5a8}`", "b p f"})
+			plain := r.Pick([]string{"b2", "p", "f", "5a8", "3c8", "a10 + b", "f + p2", "c", "2c8m10", "10a10m8k6", "B", "P3", "func g(){ b }; g()", "&v = f; v", "`{5a8}`", "b p f", "i = 0; while i < 2 { i = i + 1 }; i", "if 1 { b2 }", "2d", "a5", "A5 + 1", "a10k8q2", "[a2, a3]"})
 			macro := ""
 			if r.Bool() {
 				m := r.Range(1, 3)
@@ -291,6 +292,32 @@ func c16Case(w *fw.W, idx int, r *fw.Rand) {
 				}
 			}
 			src = macro + plain
+			if k > 0 && r.P(1, 3) {
+				// the host changes the configuration between two inputs; half the time the next
+				// input is byte-identical to the previous one
+				switch r.Intn(7) {
+				case 0:
+					cfg.WoD = !cfg.WoD
+				case 1:
+					cfg.CoC = !cfg.CoC
+				case 2:
+					cfg.Fate = !cfg.Fate
+				case 3:
+					cfg.DC = !cfg.DC
+				case 4:
+					cfg.NoStmts = !cfg.NoStmts
+				case 5:
+					cfg.NoNDice = !cfg.NoNDice
+				default:
+					cfg.WoD, cfg.CoC, cfg.Fate, cfg.DC = false, false, false, false
+				}
+				cfg.Apply(vm)
+				if r.Bool() {
+					src = lastSrc
+				}
+				hist = append(hist, "(host sets Config "+cfg.String()+")")
+			}
+			lastSrc = src
 			hist = append(hist, src)
 			desc := fmt.Sprintf("families=%04b history=%q", bits, hist)
 			w.Begin(idx, desc)
